@@ -6,6 +6,7 @@ from ..facts import in_module
 from .c02 import residual_rule
 from .c10 import pats, vname
 from .. import storerules as sr
+from .. import kleene
 
 LEVEL = "other"
 OPS = "samyama::query::executor::operator::"
@@ -62,6 +63,27 @@ def run(ctx, F, cg):
                 ctx.violation("R01g", "AggregatorState::new|distinct-ignored|" + ",".join(sorted(set(bad))), where(an), "the aggregate state for %s is built without looking at the DISTINCT flag: %s(DISTINCT x) counts duplicate inputs" % (sorted(set(bad)), sorted(set(bad))[0].lower()))
             else:
                 ctx.ok("R01g", "AggregatorState::new", "every multiplicity-sensitive aggregate has a DISTINCT arm before its wildcard arm (%d arms)" % len(order))
+    # ---- R01h: AND / OR tables are commutative and Kleene ------------------------------------------------------
+    ctx.rule("R01h", "every AND / OR table of the evaluator (a match on a pair of PropertyValues with a Boolean literal arm) is commutative and agrees with Kleene's three-valued table: the arm list is evaluated over the 16 operand classes {true,false,null,other}^2 — `null AND false` is false on either side, so NOT(null AND false) keeps the row")
+    ntab = 0
+    for p in sorted(F.all_arm_fns()):
+        if not p.startswith(OPS):
+            continue
+        k = 0
+        for m in F.arms(p):
+            if not kleene.is_table(m):
+                continue
+            ntab += 1
+            short = p.replace(OPS, "")
+            probs, cells = kleene.check(m)
+            inst = "%s|table|%d" % (short, k)
+            k += 1
+            ctx.saw_fn(p)
+            for kind, text in probs[:3]:
+                ctx.violation("R01h", "%s|%s" % (inst, kind), "%s:%s" % (F.fns[p]["file"], m["line"]) if p in F.fns else p, text + " (%s)" % p)
+            if not probs:
+                ctx.ok("R01h", inst, "%d operand-class pairs evaluated; commutative and Kleene" % cells)
+    ctx.floor("R01h", "three-valued AND/OR tables in the executor", ntab, 4)
     ctx.rule("R01d", "every IndexScanOperator built by the planner is given the pattern's labels (with_labels)")
     # ---- R01a ------------------------------------------------------------------------------------------
     ini = [r for p, r in F.fns.items() if p == OPS + "NodeScanOperator::initialize"]
